@@ -79,6 +79,8 @@ CMP = {
     ast.Eq: operator.eq, ast.NotEq: operator.ne, ast.Lt: operator.lt, ast.LtE: operator.le, ast.Gt: operator.gt, ast.GtE: operator.ge,
     ast.Is: operator.is_, ast.IsNot: operator.is_not, ast.In: lambda a, b: a in b, ast.NotIn: lambda a, b: a not in b,
 }
+DUNDER_CMP = {ast.Gt: "__gt__", ast.GtE: "__ge__", ast.Lt: "__lt__", ast.LtE: "__le__", ast.Eq: "__eq__", ast.NotEq: "__ne__"}
+DUNDER_BIN = {ast.Add: "__add__", ast.Sub: "__sub__", ast.Mult: "__mul__"}
 BIN = {ast.Add: operator.add, ast.Sub: operator.sub, ast.Mult: operator.mul, ast.BitOr: operator.or_, ast.BitAnd: operator.and_, ast.FloorDiv: operator.floordiv, ast.Mod: operator.mod, ast.Pow: operator.pow, ast.LShift: operator.lshift}
 
 SAFE_BUILTINS: dict[str, Callable] = {
@@ -113,6 +115,17 @@ class Ev:
             if m is not None:
                 return m
         return None
+
+    def truth(self, v: Any) -> bool:
+        if isinstance(v, Obj):
+            m = self.dunder(v, "__bool__")
+            if m is not None:
+                return bool(m(v))
+            m = self.dunder(v, "__len__")
+            if m is not None:
+                return m(v) != 0
+            return True
+        return bool(v)
 
     def to_str(self, v: Any) -> str:
         if isinstance(v, Obj):
@@ -180,6 +193,8 @@ class Ev:
                         raise _ModelRaise("TypeError: not subscriptable")
                     return m(base, slice(lo, hi, st))
                 return base[lo:hi:st]
+            if callable(base) and not isinstance(base, (Obj, _Bound)) and isinstance(n.value, ast.Name):
+                return base  # a generic alias such as Stack[str]: the class itself
             idx = self.ev(n.slice)
             if isinstance(base, Obj):
                 if callable(base.__dict__.get("__getitem__")):
@@ -200,6 +215,13 @@ class Ev:
                 f = CMP.get(type(op))
                 if f is None:
                     raise self.bad(n)
+                if isinstance(left, Obj) and type(op) in DUNDER_CMP:
+                    dm = self.dunder(left, DUNDER_CMP[type(op)])
+                    if dm is not None:
+                        if not dm(left, right):
+                            return False
+                        left = right
+                        continue
                 try:
                     if not f(left, right):
                         return False
@@ -211,15 +233,15 @@ class Ev:
             val: Any = None
             for v in n.values:
                 val = self.ev(v)
-                if isinstance(n.op, ast.And) and not val:
+                if isinstance(n.op, ast.And) and not self.truth(val):
                     return val
-                if isinstance(n.op, ast.Or) and val:
+                if isinstance(n.op, ast.Or) and self.truth(val):
                     return val
             return val
         if isinstance(n, ast.UnaryOp):
             v = self.ev(n.operand)
             if isinstance(n.op, ast.Not):
-                return not v
+                return not self.truth(v)
             if isinstance(n.op, ast.USub):
                 return -v
             raise self.bad(n)
@@ -232,7 +254,7 @@ class Ev:
             except TypeError as err:
                 raise _ModelRaise("TypeError") from err
         if isinstance(n, ast.IfExp):
-            return self.ev(n.body) if self.ev(n.test) else self.ev(n.orelse)
+            return self.ev(n.body) if self.truth(self.ev(n.test)) else self.ev(n.orelse)
         if isinstance(n, ast.Tuple):
             return tuple(self.ev(e) for e in n.elts)
         if isinstance(n, ast.List):
@@ -319,6 +341,11 @@ class Ev:
 
     def call(self, n: ast.Call) -> Any:  # noqa: PLR0911, PLR0912
         f = n.func
+        if isinstance(f, ast.Subscript):
+            target = self.ev(f)
+            if callable(target):
+                return target(*self.args_of(n), **{k.arg: self.ev(k.value) for k in n.keywords if k.arg})
+            raise self.bad(n)
         callee_is_model = (isinstance(f, ast.Name) and f.id in self.env and callable(self.env[f.id])) or isinstance(f, ast.Attribute)
         if n.keywords and not callee_is_model and not all(k.arg in ("key", "reverse", "default", "start") for k in n.keywords):
             raise self.bad(n, "keyword arguments")
@@ -490,9 +517,16 @@ class Ev:
                 if f is None:
                     raise self.bad(s)
                 cur = self.ev(ast.copy_location(_load(s.target), s.target))
-                self.assign(s.target, f(cur, self.ev(s.value)))
+                rhs = self.ev(s.value)
+                if isinstance(cur, Obj) and type(s.op) in DUNDER_BIN:
+                    dm = self.dunder(cur, DUNDER_BIN[type(s.op)].replace("__", "__i", 1)) or self.dunder(cur, DUNDER_BIN[type(s.op)])
+                    if dm is None:
+                        raise self.bad(s, "augmented assignment on a model object without the operator")
+                    self.assign(s.target, dm(cur, rhs))
+                else:
+                    self.assign(s.target, f(cur, rhs))
             elif isinstance(s, ast.If):
-                self.run(s.body if self.ev(s.test) else s.orelse)
+                self.run(s.body if self.truth(self.ev(s.test)) else s.orelse)
             elif isinstance(s, ast.For):
                 broke = False
                 for item in self.iterate(self.ev(s.iter)):
@@ -508,7 +542,7 @@ class Ev:
                     self.run(s.orelse)
             elif isinstance(s, ast.While):
                 n = 0
-                while self.ev(s.test):
+                while self.truth(self.ev(s.test)):
                     n += 1
                     if n > 200:
                         raise Unsupported(f"{self.where}: loop does not terminate on the model")
@@ -574,8 +608,23 @@ class Ev:
                 else:
                     self.run(s.orelse)
                 self.run(s.finalbody)
+            elif isinstance(s, ast.With) and not (len(s.items) == 1 and isinstance(s.items[0].context_expr, ast.Call) and ast.unparse(s.items[0].context_expr.func).split(".")[-1] == "suppress"):
+                entered: list = []
+                try:
+                    for it in s.items:
+                        c = self.ev(it.context_expr)
+                        if not isinstance(c, CtxManager):
+                            raise self.bad(s, "with statement over something that is not a model context manager")
+                        val = c.enter()
+                        entered.append(c)
+                        if it.optional_vars is not None:
+                            self.assign(it.optional_vars, val)
+                    self.run(s.body)
+                finally:
+                    for c in reversed(entered):
+                        c.exit()
             elif isinstance(s, ast.With):
-                # contextlib.suppress(...) only
+                # contextlib.suppress(...)
                 if len(s.items) == 1 and isinstance(s.items[0].context_expr, ast.Call) and ast.unparse(s.items[0].context_expr.func).split(".")[-1] == "suppress":
                     names = [ast.unparse(a).split(".")[-1] for a in s.items[0].context_expr.args]
                     try:
@@ -686,6 +735,7 @@ class Ev:
         outer = self.env if base_env is None else base_env
 
         vararg = fn.args.vararg.arg if fn.args.vararg else None
+        is_ctx = any(ast.unparse(d).split(".")[-1] == "contextmanager" for d in fn.decorator_list)
 
         def call(*args: Any, **kwargs: Any) -> Any:
             if len(args) > len(params) and vararg is None:
@@ -710,6 +760,12 @@ class Ev:
             missing = [q for q in params + kwonly if q not in bound]
             if missing:
                 raise Unsupported(f"{self.where}: missing arguments {missing} calling {fn.name}")
+            if is_ctx:
+                body = [x for x in fn.body if not (isinstance(x, ast.Expr) and isinstance(x.value, ast.Constant))]
+                ys = [i for i, x in enumerate(body) if isinstance(x, ast.Expr) and isinstance(x.value, ast.Yield)]
+                if len(ys) != 1 or sum(1 for x in _own_nodes(fn) if isinstance(x, (ast.Yield, ast.YieldFrom))) != 1:
+                    raise Unsupported(f"{self.where}: context manager {fn.name} without a single top-level yield")
+                return CtxManager(sub, body[: ys[0]], body[ys[0]].value.value, body[ys[0] + 1:])
             sub.steps = self.steps
             try:
                 sub.run(fn.body)
@@ -728,6 +784,20 @@ class Ev:
         except _Return as r:
             return r.value
         return None
+
+
+class CtxManager:
+    """A @contextmanager generator function, split at its (single, top-level) yield."""
+
+    def __init__(self, ev: "Ev", pre: list, yielded: ast.expr | None, post: list):
+        self.ev, self.pre, self.yielded, self.post = ev, pre, yielded, post
+
+    def enter(self) -> Any:
+        self.ev.run(self.pre)
+        return self.ev.ev(self.yielded) if self.yielded is not None else None
+
+    def exit(self) -> None:
+        self.ev.run(self.post)
 
 
 class _Super:
